@@ -3,14 +3,16 @@
 # (demo passes without, fails with; suite still passes), then store it under /verif/seeded/<ID>-<m>/.
 ID=$1; M=$2; W=/tmp/seed/$ID; O=/tmp/seed/$ID-out/$M
 cd $W || exit 2
-git checkout -q -- . && git clean -fdq -e target
+BASE=/tmp/seed/$ID-out/baseline.diff
+reset_tree() { git checkout -q -- . && git clean -fdq -e target; [ -f $BASE ] && git apply $BASE; true; }
+reset_tree
 DEMO=$(python3 -c "import json;print(json.load(open('$O/meta.json'))['demo_cmd'])")
 DEMO=${DEMO#cd /tmp/seed/$ID && }
 git apply $O/demo.diff || { echo "demo.diff does not apply"; exit 2; }
 ( eval "$DEMO" ) > $O/confirm_demo_clean.log 2>&1; A=$?
 git apply $O/patch.diff || { echo "patch.diff does not apply"; exit 2; }
 ( eval "$DEMO" ) > $O/confirm_demo_patched.log 2>&1; B=$?
-git checkout -q -- . && git clean -fdq -e target
+reset_tree
 git apply $O/patch.diff
 cargo test --workspace --offline --no-fail-fast > $O/confirm_suite.log 2>&1
 FAILED=$(grep -E "^test .* \.\.\. FAILED" $O/confirm_suite.log | grep -v "errors::kind::tests::test_display" | wc -l)
@@ -19,7 +21,7 @@ git checkout -q -- . && git clean -fdq -e target
 echo "$ID $M: demo clean exit=$A, demo patched exit=$B, suite other failures=$FAILED passed=$PASSED"
 if [ "$A" = 0 ] && [ "$B" != 0 ] && [ "$FAILED" = 0 ] && [ "$PASSED" -ge 57 ]; then
   D=/verif/seeded/$ID-$M; mkdir -p $D
-  cp $O/patch.diff $O/demo.diff $D/
+  cp $O/patch.diff $O/demo.diff $D/; [ -f $BASE ] && cp $BASE $D/baseline.diff
   python3 - <<PY
 import json
 m=json.load(open('$O/meta.json'))
